@@ -4078,9 +4078,9 @@ func (vm *Thread) CaptureStackTrace() *value.StackTrace {
 
 func (vm *Thread) populateMissingParametersInSlice(args []value.Value, paramCount, argumentCount int) []value.Value {
 	// populate missing optional arguments with undefined
-	missingParams := uintptr(paramCount - argumentCount)
-	if missingParams > 0 {
-		newArgs := make([]value.Value, paramCount)
+	if argumentCount < paramCount {
+		// args[0] is the receiver
+		newArgs := make([]value.Value, paramCount+1)
 		copy(newArgs, args)
 		return newArgs
 	}
